@@ -239,8 +239,9 @@ class C14(Check):
         else:
             self._shipped(case, R)
 
-    def _judge(self, R, desc, image, complete, final, expected, box_offset, sig_prefix, cls, info_only=False):
-        verdict, val = read_image(image)
+    def _judge(self, R, desc, image, complete, final, expected, box_offset, sig_prefix, cls, info_only=False,
+               given=None):
+        verdict, val = given if given is not None else read_image(image)
         has_box = bool(complete and len(image) > box_offset and image[:box_offset] == final[:box_offset])
         if info_only:
             R.add('torn_backfill_images')
@@ -316,6 +317,10 @@ class C14(Check):
                 for k in range(len(final) + 1):
                     self._judge(R, dict(case, img=['trunc', k, None]), final[:k], True, final, expected,
                                 box_offset, 'truncation/generated/', 'trunc/' + cls)
+            if complete and n <= 4:
+                self._over_existing(case, R, ops, final, expected, box_offset, cls)
+        elif only[0] == 'over':
+            self._over_existing(case, R, ops, final, expected, box_offset, cls, only_i=only[1])
         else:
             kind, i, t = only
             if kind == 'trunc':
@@ -324,6 +329,21 @@ class C14(Check):
             else:
                 self._judge(R, case, one_crash_image(ops, kind, i, t), complete, final, expected,
                             box_offset, sigp, f'crash-{kind}/' + cls, info_only=(kind == 'torn'))
+
+    def _over_existing(self, case, R, ops, final, expected, box_offset, cls, only_i=None):
+        """Non-initial state: the output path already holds a complete file that this process has
+        read; the writer is re-run on the same path and crashes.  Each crash image is written over
+        the same real path and opened again (nothing remembered from the earlier read may help)."""
+        with self._path() as path:
+            for kind, i, t, image in crash_images(ops):
+                if kind != 'op' or (only_i is not None and i != only_i):
+                    continue
+                first = read_real_file(path, final)
+                if first != ('ok', expected):
+                    R.add('complete_files_not_read_back')
+                got = read_real_file(path, image)
+                self._judge(R, dict(case, img=['over', i, None]), image, True, final, expected, box_offset,
+                            'crash-over-existing-file/', 'crash-over-existing/' + cls, given=got)
 
     def _shipped(self, case, R):
         text = shipped_text(case['file'])
